@@ -435,6 +435,11 @@ def body_learners(data) -> Outcome:
                 out.fail(exc_bucket(e, "create_learners-refused"), f"{r}: {exc_detail(e)}")
                 return out
             keys = list(ld.data)
+            if mode == "split" and len(keys) >= 2:
+                out.labels.append("split:several-keys")
+                key_axes = {a for k in keys if k for a, _ in k}
+                if any(not (set(fn["out_axes"]) & key_axes) for fn in prog["funcs"]):
+                    out.labels.append("split:several-keys+function-without-a-split-axis")
             keys = sorted(range(len(keys)), key=lambda i: (data["order_key"] >> (2 * (i % 8))) % 4 * 100 + i)
             klist = list(ld.data)
             for ki in keys:
@@ -589,6 +594,66 @@ def body_reject(data) -> Outcome:
     return out
 
 
+@st.composite
+def side_programs(draw):
+    """Programs with a function that carries none of the independent axes (another mapped axis that a later function
+    takes whole, a function without MapSpec) feeding functions that do: under split_independent_axes such a function
+    belongs to every key's chain."""
+
+    def fn(name, outs, params, out_axes, mapspec=True):
+        return {"name": name, "outs": outs, "picker": None, "mapspec": mapspec, "params": params, "out_axes": list(out_axes),
+                "int_axes": [], "ret": "list", "shape_via": "map", "nones": False}  # fmt: skip
+
+    sizes = {"i": draw(st.integers(2, 3)), "j": draw(st.integers(1, 3))}
+    roots = {"x": {"axes": ["i"], "kind": "list"}, "w": {"axes": ["j"], "kind": draw(st.sampled_from(["list", "ndarray"]))}}
+    side = draw(st.sampled_from(["other-axis", "whole", "scalar"]))
+    funcs = []
+    if side == "other-axis":
+        funcs.append(fn("f0", ["v"], [{"name": "w", "spec": ["j"]}], ["j"]))
+    elif side == "whole":
+        funcs.append(fn("f0", ["v"], [{"name": "w", "spec": None}], [], mapspec=False))
+    else:
+        roots["s"] = {"axes": [], "kind": "scalar"}
+        funcs.append(fn("f0", ["v"], [{"name": "s", "spec": None}], [], mapspec=False))
+    first = "x"
+    if draw(st.booleans()):
+        funcs.append(fn("f1", ["y"], [{"name": "x", "spec": ["i"]}], ["i"]))
+        first = "y"
+    params = [{"name": first, "spec": ["i"]}, {"name": "v", "spec": None}]
+    if draw(st.booleans()):
+        params.reverse()
+    funcs.append(fn("f2", ["z"], params, ["i"]))
+    if draw(st.booleans()):
+        funcs.append(fn("f3", ["u"], [{"name": "z", "spec": ["i"]}], ["i"]))
+    if side == "scalar" or draw(st.booleans()):
+        if side == "scalar":
+            funcs.append(fn("f4", ["t"], [{"name": "w", "spec": ["j"]}], ["j"]))  # keeps every root used
+    return {"sizes": sizes, "roots": roots, "funcs": funcs, "storage": "file_array"}
+
+
+@st.composite
+def reduce_programs(draw):
+    """A rank-2 array with two or three reducing consumers (whole, row-wise, column-wise) in a drawn order: each
+    consumer contributes its own reduced axes."""
+
+    def fn(name, outs, params, out_axes, mapspec=True):
+        return {"name": name, "outs": outs, "picker": None, "mapspec": mapspec, "params": params, "out_axes": list(out_axes),
+                "int_axes": [], "ret": "list", "shape_via": "map", "nones": False}  # fmt: skip
+
+    sizes = {"i": draw(st.integers(2, 3)), "j": draw(st.integers(2, 3))}
+    roots = {"x": {"axes": ["i"], "kind": "list"}, "w": {"axes": ["j"], "kind": "list"}}
+    funcs = [fn("f0", ["y"], [{"name": "x", "spec": ["i"]}, {"name": "w", "spec": ["j"]}], ["i", "j"])]
+    consumers = {
+        "whole": fn("gw", ["tot"], [{"name": "y", "spec": None}], [], mapspec=False),
+        "rows": fn("gr", ["rows"], [{"name": "y", "spec": ["i", None]}], ["i"]),
+        "cols": fn("gc", ["cols"], [{"name": "y", "spec": [None, "j"]}], ["j"]),
+        "norm": fn("gn", ["nrm"], [{"name": "y", "spec": ["i", None]}, {"name": "w", "spec": ["j"]}], ["i", "j"]),
+    }
+    chosen = draw(st.lists(st.sampled_from(sorted(consumers)), min_size=2, max_size=3, unique=True))
+    funcs += [consumers[c] for c in chosen]
+    return {"sizes": sizes, "roots": roots, "funcs": funcs, "storage": draw(st.sampled_from(["file_array", "dict"]))}
+
+
 def campaigns(tier):
     progs = st.one_of(
         mp.map_programs(max_funcs=3, max_rank=2, max_size=4, min_funcs=1),
@@ -598,12 +663,17 @@ def campaigns(tier):
     parts = st.fixed_dictionaries(
         {"prog": progs, "part_bits": st.integers(0, 2**16 - 1), "order_key": st.integers(0, 2**18 - 1), "pick": st.integers(0, 2**12 - 1)}
     )
+    # learners: plus a family of rank-1 programs over two index names (several mapped axes side by side, whole-array
+    # consumers of the "other" axis: functions that carry none of the axes the learners are split over)
+    lprogs = st.one_of(progs, mp.map_programs(max_funcs=3, max_rank=1, max_size=3, min_funcs=2, root_pool=2),
+                       mp.map_programs(max_funcs=4, max_rank=1, max_size=3, min_funcs=3, root_pool=2, allow_internal=False),
+                       side_programs())  # fmt: skip
     learners = st.fixed_dictionaries(
-        {"prog": progs, "mode": st.sampled_from(["split", "whole", "fixed", "split", "crash"]), "part_bits": st.integers(0, 2**16 - 1),
+        {"prog": lprogs, "mode": st.sampled_from(["split", "whole", "fixed", "split", "crash"]), "part_bits": st.integers(0, 2**16 - 1),
          "order_key": st.integers(0, 2**18 - 1), "pick": st.integers(0, 2**12 - 1)}
     )  # fmt: skip
     reject = st.fixed_dictionaries(
-        {"prog": progs, "why": st.sampled_from(["unknown", "out-of-range", "reduced", "reduced", "reduced"]), "pick": st.integers(0, 2**12 - 1)}
+        {"prog": st.one_of(progs, progs, reduce_programs()), "why": st.sampled_from(["unknown", "out-of-range", "reduced", "reduced", "reduced"]), "pick": st.integers(0, 2**12 - 1)}
     )
     return [
         Campaign("parts", body_parts, parts, quick=1500, thorough=16000, describe="map(fixed_indices=part) per part of a partition, drawn order"),
@@ -644,6 +714,8 @@ def _pred_mapped_and_reduced(case, failure) -> bool:
     prog = case["data"]["prog"]
     if case["data"].get("mode") != "split":
         return False
+    if not failure.bucket.startswith("create_learners-refused"):
+        return False  # the finding is a refusal (assertion / ValueError) at create_learners, nothing else
     axes_of = carried_axes(prog)
     named = {a for fn in prog["funcs"] if fn["mapspec"] for p in fn["params"] if p["spec"] for a in p["spec"] if a}
     reduced = set()
